@@ -70,8 +70,12 @@ impl<'a> Gen<'a> {
     }
 
     fn rvalue(&mut self) -> String {
-        let n = if self.defined.is_empty() { 12 } else { 13 };
+        let n = if self.defined.is_empty() { 15 } else { 16 };
         match self.rng.below(n) {
+            // queries whose target is a container or a function call that itself reads the event
+            12 => format!("{{\"k\": {}, \"l\": {}}}.k", self.path(), self.path()),
+            13 => format!("[{}, {}][1]", self.path(), self.path()),
+            14 => format!("(parse_json!(encode_json({})).zz ?? null)", self.path()),
             9 => format!("({} || {})", self.path(), self.path()),
             10 => format!("(exists({}) && {} == {})", self.npath(), self.path(), self.lit()),
             11 => format!("(({} ?? {}) ?? {})", { let p = self.path(); format!("to_int({})", self.any(p)) }, { let p = self.path(); format!("to_int({})", self.any(p)) }, self.lit()),
